@@ -633,3 +633,70 @@ for _kind in SKETCHES:
     CELLS.append(Cell(f"C19/sketch/{_kind}", sketch_cases(_kind), check_sketch, 10, 300,
                       f"{_kind}: core/shell/grid of the sketch and of a shape lofted from it by contact with the outer "
                       "boundary; delete through shape.grid"))
+
+
+# User-defined round shapes: a subclass that sets `sketch_class` (as examples/complex/cyclone does) - also one that
+# carries the *name* of a built-in class - has the core/shell split of its own sketch, whatever was built before it
+# in the same process (seeded C19_12: a split remembered per class name).
+USER_SKETCHES = {"OneCoreDisk": (1, 4), "FourCoreDisk": (4, 8), "HalfDisk": (2, 4)}
+
+
+@st.composite
+def subclass_cases(draw):
+    return {
+        "base": draw(st.sampled_from(["Cylinder", "SemiCylinder"])),
+        "same_name": draw(st.booleans()),
+        "sketch": draw(st.sampled_from(sorted(USER_SKETCHES))),
+        "builtin_first": draw(st.booleans()),
+        "r": draw(st.floats(0.2, 3.0)),
+        "h": draw(st.floats(0.3, 5.0)),
+        "origin": [draw(st.floats(-10, 10)) for _ in range(3)],
+        "axis": draw(st.integers(0, 2)),
+    }
+
+
+def check_subclass(case, ctx: Ctx) -> None:
+    base = getattr(cb, case["base"])
+    sketch = getattr(cb, case["sketch"])
+    name = case["base"] if case["same_name"] else "User" + case["base"]
+    user = type(name, (base,), {"sketch_class": sketch})
+    facts = {"shape": case["base"], "sketch": case["sketch"], "same_name": case["same_name"],
+             "builtin_first": case["builtin_first"]}
+    o = np.array(case["origin"], float)
+    ax = np.zeros(3)
+    ax[case["axis"]] = 1.0
+    rad = np.zeros(3)
+    rad[(case["axis"] + 1) % 3] = case["r"]
+    tol = 1e-6 * case["r"] + 5e-8
+
+    def touches(op) -> bool:
+        d = np.asarray(op.point_array, float) - o
+        radial = d - np.outer(d @ ax, ax)
+        return bool(np.any(np.abs(np.linalg.norm(radial, axis=1) - case["r"]) <= tol))
+
+    def judge(cls, want, label):
+        try:
+            shape = cls(o, o + case["h"] * ax, o + rad)
+            core, shell, ops = shape.core, shape.shell, shape.operations
+        except Exception as ex:  # noqa: BLE001
+            raise Violation("core-shell-raises", f"{label}: {type(ex).__name__}: {str(ex)[:200]}", **facts) from None
+        check_partition(label, core, shell, ops, touches, facts)
+        if (len(core), len(shell)) != want:
+            raise Violation("core-shell-size", f"{label}: {len(core)} core and {len(shell)} shell operations, expected {want}",
+                            **facts)
+
+    builtin_want = {"Cylinder": (4, 8), "SemiCylinder": (2, 4)}[case["base"]]
+    steps = [(base, builtin_want, f"built-in {case['base']}"), (user, USER_SKETCHES[case["sketch"]],
+                                                               f"user class {name}(sketch_class={case['sketch']})")]
+    if not case["builtin_first"]:
+        steps.reverse()
+    for cls, want, label in steps:
+        judge(cls, want, label)
+    ctx.nt(USER_SKETCHES[case["sketch"]] != builtin_want)
+    ctx.label("same-name" if case["same_name"] else "other-name")
+
+
+CELLS.append(Cell("C19/round/user-subclass", subclass_cases(), check_subclass, 60, 1000,
+                  "a user subclass of Cylinder / SemiCylinder with its own sketch_class (OneCoreDisk, FourCoreDisk, HalfDisk), "
+                  "named like the built-in class or not, built before or after a built-in shape: both have the core/shell "
+                  "split of their own sketch, judged by contact with the outer surface"))
